@@ -1,6 +1,7 @@
 """Executes a scenario (sequence of public Solver calls) on the real code and records one event
 per call at its return (also on the exception path)."""
 import signal
+import warnings
 
 from cspuz import Solver
 from . import dx as DX
@@ -50,7 +51,9 @@ def run_scenario(steps, backend="z3", limit_s=20):
             ev = {"ev": a, "status": "ok", "exc": "", "ret": False}
             signal.alarm(limit_s)
             try:
-                r = solver.find_answer(backend) if a == "find_answer" else solver.solve(backend)
+                with warnings.catch_warnings():
+                    warnings.simplefilter("ignore")
+                    r = solver.find_answer(backend) if a == "find_answer" else solver.solve(backend)
                 if type(r) is not bool:
                     ev["status"], ev["exc"] = "exc", "ReturnedNonBool_" + type(r).__name__
                 else:
